@@ -179,15 +179,18 @@ class JsonRPCServer:
         ):
             logger.debug("Connected to client")
             self.protocol.set_writer(writer)  # type: ignore
-            await run_async(
-                stop_event=stop_event,
-                reader=reader,
-                protocol=self.protocol,
-                logger=logger,
-                error_handler=self._report_server_error,
-            )
-            logger.debug("Main loop finished")
-            self.shutdown()
+            try:
+                await run_async(
+                    stop_event=stop_event,
+                    reader=reader,
+                    protocol=self.protocol,
+                    logger=logger,
+                    error_handler=self._report_server_error,
+                )
+            finally:
+                logger.debug("Main loop finished")
+                writer.close()
+                self.shutdown()
 
         async def tcp_server(h: str, p: int):
             self._server = await asyncio.start_server(lsp_connection, h, p)
